@@ -16,13 +16,50 @@ from models import streamref as S
 PROPERTY = "C01"
 LEVEL = "model_checking"
 ASSUMPTIONS = [
-    "one tiny 4:4:4 format, 2 slices per picture; level *value* tables swapped for a permissive table in-process (as tests/alternative_level_constraints.py does), level ordering patterns are the real ones",
+    "one tiny 4:4:4 format, 2x2 slices per picture; level *value* tables swapped for a permissive table in-process (as tests/alternative_level_constraints.py does), level ordering patterns are the real ones",
     "headers, padding and auxiliary data between the fragments of one picture are accepted ('no interleaving' = no other picture)",
     "state merging uses a projection of the implementation's own State (all entries except I/O handles, decoded arrays and offsets only used in messages) paired with the reference model's state; merged only when both keys are equal",
     "known finding F5 is attributed only when the reference instantiated with the defective automaton predicts the verdict",
 ]
 M32 = 1 << 32
 HORIZON = 20.0
+SX, SY = 2, 2
+NS = SX * SY
+
+
+class FragTracker(object):
+    """Harness bookkeeping used only to *choose* the bytes of fragment events
+    ("contiguous", "the rest", "same number"): mirrors a well-behaved sender."""
+
+    def __init__(self):
+        self.pn, self.received, self.active = 0, 0, False
+
+    def start(self, pn):
+        self.pn, self.received, self.active = pn, 0, True
+
+    def resolve(self, variant):
+        """-> (count, first_slice_for_data, x, y, pn)"""
+        count, offs, num = variant
+        first = self.received if self.active and self.received < NS else 0
+        if count == "rest":
+            count = NS - first
+        x, y = first % SX, first // SX
+        if offs == "bad":
+            x = (x + 1) % SX
+        elif offs == "alias":
+            if y >= 1:
+                x, y = x + SX, y - 1  # same raster index, wrong coordinates
+            else:
+                x = (x + 1) % SX
+        pn = self.pn if num == "same" else (self.pn + 1) % M32
+        if offs == "ok" and num == "same" and self.active and count <= NS - self.received:
+            self.received += count
+            if self.received >= NS:
+                self.active = False
+        return count, first, x, y, pn
+
+    def key(self):
+        return (S._pn_class(self.pn), self.received, self.active)
 
 # event = (kind, variant, pn_rule, npo_rule, ppo_rule)
 PN_RULES = ("next", "skip", "same", "abs0", "abs1", "absM1", "absM2")
@@ -34,13 +71,16 @@ def base_events():
         ("PIC", "own", "next", "ok", "ok"),
         ("EOS", None, None, "ok", "ok"),
         ("FRAG0", "own", "next", "ok", "ok"),
-        ("FRAGN", (1, "ok", "same"), None, "ok", "ok"),
+        ("FRAGN", ("rest", "ok", "same"), None, "ok", "ok"),
         ("FRAGN", (2, "ok", "same"), None, "ok", "ok"),
+        ("FRAGN", (1, "ok", "same"), None, "ok", "ok"),
         ("PAD", None, None, "ok", "ok"),
         ("AUX", None, None, "ok", "ok"),
         ("SH", 1, None, "ok", "ok"),
-        ("FRAGN", (1, "bad", "same"), None, "ok", "ok"),
-        ("FRAGN", (1, "ok", "diff"), None, "ok", "ok"),
+        ("FRAGN", (2, "bad", "same"), None, "ok", "ok"),
+        ("FRAGN", ("rest", "alias", "same"), None, "ok", "ok"),
+        ("FRAGN", ("rest", "ok", "diff"), None, "ok", "ok"),
+        ("FRAGN", (3, "ok", "same"), None, "ok", "ok"),
         ("PIC", "foreign", "next", "ok", "ok"),
         ("FRAG0", "foreign", "next", "ok", "ok"),
     ]
@@ -52,7 +92,7 @@ def events(two_deviations=False):
     for kind in ("PIC", "FRAG0"):
         for r in PN_RULES[1:]:
             evs.append((kind, "own", r, "ok", "ok"))
-    offs_kinds = [("SH", 0, None), ("PIC", "own", "next"), ("FRAG0", "own", "next"), ("FRAGN", (1, "ok", "same"), None), ("PAD", None, None), ("EOS", None, None)]
+    offs_kinds = [("SH", 0, None), ("PIC", "own", "next"), ("FRAG0", "own", "next"), ("FRAGN", ("rest", "ok", "same"), None), ("PAD", None, None), ("EOS", None, None)]
     for k, v, p in offs_kinds:
         for npo in ("zero", "plus1", "five"):
             evs.append((k, v, p, npo, "ok"))
@@ -77,7 +117,7 @@ def events(two_deviations=False):
 class Context(object):
     def __init__(self, profile, major_version, level, fields):
         self.profile, self.major_version, self.level, self.fields = profile, major_version, level, fields
-        self.f = B.tiny_format(profile=profile, major_version=major_version, level=level, picture_coding_mode=1 if fields else 0, frame_height=4 if fields else 2)
+        self.f = B.tiny_format(profile=profile, major_version=major_version, level=level, picture_coding_mode=1 if fields else 0, frame_width=4, frame_height=8 if fields else 4, slices_x=SX, slices_y=SY)
         self.foreign = self.f.but(profile=B.PROFILE_HQ if profile == B.PROFILE_LD else B.PROFILE_LD)
         self.f_alt = self.f.but(frame_rate=("preset", 3))
         self.sh = [B.seq_header(self.f), B.seq_header(self.f_alt)]
@@ -95,9 +135,7 @@ def build_history(ctx, hist):
     """Events -> (builder units, abstract units for the reference)."""
     units, abstract = [], []
     counter = -1  # last picture number used anywhere in the stream
-    frag_pn = 0
-    frag_received = 0  # harness bookkeeping used only to choose "contiguous" offsets
-    frag_active = False
+    ft = FragTracker()
     prev_len = None
     first = True
     for kind, variant, pnr, npo_rule, ppo_rule in hist:
@@ -130,21 +168,13 @@ def build_history(ctx, hist):
             else:
                 u = B.fragment_first(f, pn)
                 a["slice_count"] = 0
-                frag_pn, frag_received, frag_active = pn, 0, True
+                ft.start(pn)
         elif kind == "FRAGN":
-            count, offs, num = variant
-            first_slice = frag_received if frag_active and frag_received < 2 else 0
-            pn = frag_pn if num == "same" else (frag_pn + 1) % M32
-            x = first_slice % 2
-            if offs == "bad":
-                x = (x + 1) % 2
-            n_build = min(count, 2)
-            u = B.fragment_slices(ctx.f, pn, 0, n_build, x_offset=x, y_offset=0)
-            a.update(ld=ctx.f.profile == B.PROFILE_LD, pn=pn, slice_count=count, x_offset=x, y_offset=0)
-            if offs == "ok" and num == "same" and frag_active and count <= 2 - frag_received:
-                frag_received += count
-                if frag_received >= 2:
-                    frag_active = False
+            count, first_slice, x, y, pn = ft.resolve(variant)
+            n_build = min(count, NS)
+            first_build = first_slice if first_slice + n_build <= NS else 0
+            u = B.fragment_slices(ctx.f, pn, first_build, n_build, x_offset=x, y_offset=y)
+            a.update(ld=ctx.f.profile == B.PROFILE_LD, pn=pn, slice_count=count, x_offset=x, y_offset=y)
         else:
             raise ValueError(kind)
         length = 13 + len(u.payload())
@@ -175,7 +205,7 @@ def level_ast(level):
 
 
 def run_ref(abstract, matcher_cls):
-    ref = S.StreamRef(lambda lv: matcher_cls(level_ast(lv)), 2)
+    ref = S.StreamRef(lambda lv: matcher_cls(level_ast(lv)), NS, SX)
     for a in abstract:
         ref.step(a)
     return ref
@@ -313,7 +343,7 @@ def evaluate(ctx, hist):
 
 
 def _harness_frag(hist):
-    frag_pn, rec, active = None, 0, False
+    ft = FragTracker()
     counter = -1
     for kind, variant, pnr, _, _ in hist:
         if kind in ("PIC", "FRAG0"):
@@ -326,14 +356,10 @@ def _harness_frag(hist):
             else:
                 counter = {"abs0": 0, "abs1": 1, "absM1": M32 - 1, "absM2": M32 - 2}[pnr]
             if kind == "FRAG0":
-                frag_pn, rec, active = counter, 0, True
+                ft.start(counter)
         elif kind == "FRAGN":
-            count, offs, num = variant
-            if offs == "ok" and num == "same" and active and count <= 2 - rec:
-                rec += count
-                if rec >= 2:
-                    active = False
-    return (S._pn_class(frag_pn), rec, active)
+            ft.resolve(variant)
+    return ft.key()
 
 
 def contexts(tier):
